@@ -121,7 +121,7 @@ Proof. intros H1 H2. apply isort_ssorted. constructor; assumption. Qed.
 Definition conts (o : list output) : list view :=
   flat_map (fun x => match x with Continue L => [L] | _ => [] end) o.
 Definition errs (o : list output) : list unit :=
-  flat_map (fun x => match x with Return_err => [tt] | _ => [] end) o.
+  flat_map (fun x => match x with Return_err _ => [tt] | _ => [] end) o.
 
 Lemma in_conts o L : In L (conts o) <-> In (Continue L) o.
 Proof.
@@ -130,11 +130,11 @@ Proof.
   - intros H. exists (Continue L). split; [exact H|left; reflexivity].
 Qed.
 
-Lemma in_errs o : In tt (errs o) <-> In Return_err o.
+Lemma in_errs o : In tt (errs o) <-> exists e, In (Return_err e) o.
 Proof.
   unfold errs. rewrite in_flat_map. split.
-  - intros (x & Hx & Hin). destruct x; simpl in Hin; try contradiction. exact Hx.
-  - intros H. exists Return_err. split; [exact H|left; reflexivity].
+  - intros (x & Hx & Hin). destruct x; simpl in Hin; try contradiction. eauto.
+  - intros [e H]. exists (Return_err e). split; [exact H|left; reflexivity].
 Qed.
 
 Ltac inv_pair H := inversion H; subst; clear H.
@@ -164,27 +164,30 @@ Proof.
         In (k, v) (views st) \/
         exists ty, ty <> MResp /\ ev = Handle k (ty, (topic c, k), v) /\ k <> self c /\ In k (membership c))).
   { intros ->. split; [apply incl_refl|]. split; auto. }
-  destruct ev; unfold step, decide, set_ph in Hs.
+  destruct ev; unfold step, decide, progress, set_ph, set_views, set_pass in Hs.
   - (* Handle *)
     destruct m as [[ty [t id]] v0].
+    destruct (stopped st); [inv_pair Hs; apply Same; reflexivity|].
     destruct (accepts c from (ty, (t, id), v0)) eqn:A; [|inv_pair Hs; apply Same; reflexivity].
     apply accepts_spec in A. destruct A as (-> & -> & Hne & Hm).
-    assert (Upd : forall r ch pa p oo, (st', o) = (mkSt (set_view from v0 (views st)) r ch pa p, oo) -> ty <> MResp ->
+    assert (Upd : views st' = set_view from v0 (views st) -> ty <> MResp ->
        incl (keys (views st)) (keys (views st')) /\
        (NoDup (keys (views st)) -> NoDup (keys (views st'))) /\
        (forall k v, In (k, v) (views st') ->
           In (k, v) (views st) \/
           exists ty0, ty0 <> MResp /\ Handle from (ty, (topic c, from), v0) = Handle k (ty0, (topic c, k), v)
                       /\ k <> self c /\ In k (membership c))).
-    { intros r ch pa p oo E Hty. inv_pair E. simpl.
+    { intros E Hty. rewrite E.
       split. { intros x Hx. apply set_view_keys_in. auto. }
       split. { apply set_view_nodup. }
       intros k v Hin. apply set_view_in in Hin. destruct Hin as [Hin|[-> ->]]; [auto|].
       right. exists ty. auto. }
     destruct ty.
-    + eapply Upd; [symmetry; exact Hs|discriminate].
-    + eapply Upd; [symmetry; exact Hs|discriminate].
+    + inv_pair Hs. apply Upd; [reflexivity|discriminate].
+    + destruct (fix_queries c && negb (memb from (queried st))); inv_pair Hs; (apply Upd; [reflexivity|discriminate]).
     + destruct (memb from (responded st)); inv_pair Hs; apply Same; reflexivity.
+  - split_step Hs; inv_pair Hs; apply Same; reflexivity.
+  - split_step Hs; inv_pair Hs; apply Same; reflexivity.
   - split_step Hs; inv_pair Hs; apply Same; reflexivity.
   - split_step Hs; inv_pair Hs; apply Same; reflexivity.
   - split_step Hs; inv_pair Hs; apply Same; reflexivity.
@@ -208,7 +211,7 @@ Lemma step_pass c st ev st' o : step c st ev = (st', o) ->
                     In (k, v) (views st) /\ ~ In k (keys s))).
 Proof.
   intros Hs Hc pend' s' Hp.
-  destruct ev; unfold step, decide, set_ph in Hs.
+  destruct ev; unfold step, decide, progress, set_ph, set_views, set_pass in Hs.
   - destruct m as [[ty [t id]] v0].
     split_step Hs; inv_pair Hs; simpl in *; pass_same Hc.
   - split_step Hs; inv_pair Hs; simpl in *; try congruence; pass_same Hc.
@@ -225,11 +228,13 @@ Proof.
   - split_step Hs; inv_pair Hs; simpl in *; try congruence; pass_same Hc.
   - split_step Hs; inv_pair Hs; simpl in *; try congruence; pass_same Hc.
   - split_step Hs; inv_pair Hs; simpl in *; try congruence; pass_same Hc.
+  - split_step Hs; inv_pair Hs; simpl in *; try congruence; pass_same Hc.
+  - split_step Hs; inv_pair Hs; simpl in *; try congruence; pass_same Hc.
 Qed.
 
 Lemma step_send c st ev st' o to ty v : step c st ev = (st', o) -> In (SendTo to ty v) o -> ty = MResp.
 Proof.
-  intros Hs Hin. destruct ev; unfold step, decide, set_ph in Hs;
+  intros Hs Hin. destruct ev; unfold step, decide, progress, set_ph, set_views, set_pass in Hs;
     try destruct m as [[ty0 [t id]] v0];
     split_step Hs; inv_pair Hs; simpl in Hin; intuition (try discriminate; try congruence).
 Qed.
@@ -242,9 +247,9 @@ Lemma step_bcast c st ev st' o ty v : step c st ev = (st', o) -> In (Bcast ty v)
       v = isort (intersected c s (keys (views st))) /\
       length (intersected c s (keys (views st))) = expected c /\
       views st' = views st /\ pass st' = None /\
-      (ph st' = Done v \/ exists n, ph st' = Query v n)).
+      (ph st' = Done v \/ exists a q, ph st' = Query v a q)).
 Proof.
-  intros Hs Hin. destruct ev; unfold step, decide, set_ph in Hs.
+  intros Hs Hin. destruct ev; unfold step, decide, progress, set_ph, set_views, set_pass in Hs.
   - destruct m as [[ty0 [t id]] v0].
     split_step Hs; inv_pair Hs; simpl in Hin; intuition discriminate.
   - left. split_step Hs; inv_pair Hs; simpl in Hin; try contradiction.
@@ -270,27 +275,30 @@ Proof.
       split; [reflexivity|]. exists pend, s. simpl. repeat split; eauto.
   - split_step Hs; inv_pair Hs; simpl in Hin; intuition discriminate.
   - split_step Hs; inv_pair Hs; simpl in Hin; intuition discriminate.
+  - split_step Hs; inv_pair Hs; simpl in Hin; intuition discriminate.
+  - split_step Hs; inv_pair Hs; simpl in Hin; intuition discriminate.
 Qed.
 
 (* phases and the two final outputs *)
 Inductive phase_move (c : cfg) (st : state) (ev : event) (st' : state) (o : list output) : Prop :=
 | PM_same : ph st' = ph st -> conts o = [] -> errs o = [] -> phase_move c st ev st' o
-| PM_query L n : ph st = Collect -> ev = Pass2 -> ph st' = Query L n -> In (Bcast MQuery L) o ->
+| PM_query L a q : ph st = Collect -> ev = Pass2 -> ph st' = Query L a q ->
+    q = (if fix_queries c then expected c - 1 else 0)%nat -> In (Bcast MQuery L) o ->
     conts o = [] -> errs o = [] -> phase_move c st ev st' o
-| PM_done1 L : ph st = Collect -> ev = Pass2 -> ph st' = Done L -> In (Bcast MQuery L) o ->
+| PM_done1 L : ph st = Collect -> ev = Pass2 -> ph st' = Done L -> (expected c - 1 = 0)%nat -> In (Bcast MQuery L) o ->
     conts o = [L] -> errs o = [] -> phase_move c st ev st' o
-| PM_ack L k : ph st = Query L (S (S k)) -> ev = TakeResponse -> ph st' = Query L (S k) ->
+| PM_take L a q a' q' : ph st = Query L a q -> (ev = TakeResponse \/ ev = TakeQuery) -> ph st' = Query L a' q' ->
     conts o = [] -> errs o = [] -> phase_move c st ev st' o
-| PM_done L : ph st = Query L 1 -> ev = TakeResponse -> ph st' = Done L ->
+| PM_done L a q : ph st = Query L a q -> (ev = TakeResponse \/ ev = TakeQuery) -> ph st' = Done L ->
     conts o = [L] -> errs o = [] -> phase_move c st ev st' o
-| PM_fail : (ph st = Collect \/ exists L n, ph st = Query L n) -> (ev = Pass2 \/ ev = CtxDone) ->
+| PM_fail : (ph st = Collect \/ exists L a q, ph st = Query L a q) -> (ev = Pass2 \/ ev = CtxDone) ->
     ph st' = Failed -> conts o = [] -> errs o = [tt] -> phase_move c st ev st' o.
 
 Ltac pm_same := apply PM_same; [simpl; congruence|reflexivity|reflexivity].
 
 Lemma step_phase c st ev st' o : step c st ev = (st', o) -> phase_move c st ev st' o.
 Proof.
-  intros Hs. destruct ev; unfold step, decide, set_ph in Hs.
+  intros Hs. destruct ev; unfold step, decide, progress, set_ph, set_views, set_pass in Hs.
   - destruct m as [[ty0 [t id]] v0].
     split_step Hs; inv_pair Hs; pm_same.
   - split_step Hs; inv_pair Hs; pm_same.
@@ -302,19 +310,108 @@ Proof.
     destruct (Nat.leb _ _); [|inv_pair Hs; pm_same].
     destruct (Nat.ltb _ _).
     { inv_pair Hs. apply PM_fail; auto. }
-    destruct (expected c - 1)%nat; inv_pair Hs.
+    destruct (expected c - 1)%nat eqn:E1; inv_pair Hs.
     + eapply PM_done1; simpl; eauto.
-    + eapply PM_query; simpl; eauto.
+    + eapply PM_query; simpl; eauto. rewrite E1. reflexivity.
   - destruct (ph st) eqn:Ep; try (inv_pair Hs; pm_same).
-    destruct acks_left as [|k]; [inv_pair Hs; pm_same|].
     destruct (chan st) as [|r rest]; [inv_pair Hs; pm_same|].
     destruct (view_eqb r members); [|inv_pair Hs; pm_same].
-    destruct k; inv_pair Hs.
-    + eapply PM_done; simpl; eauto.
-    + eapply PM_ack; simpl; eauto.
+    destruct (pred acks_left), queries_left; inv_pair Hs;
+      first [eapply PM_done; simpl; eauto; fail | eapply PM_take; simpl; eauto].
+  - destruct (ph st) eqn:Ep; try (inv_pair Hs; pm_same).
+    destruct (qchan st) as [|[p l] rest]; [inv_pair Hs; pm_same|].
+    destruct (view_eqb l members); [|inv_pair Hs; pm_same].
+    destruct acks_left, (pred queries_left); inv_pair Hs;
+      first [eapply PM_done; simpl; eauto; fail | eapply PM_take; simpl; eauto].
   - destruct (ph st) eqn:Ep; inv_pair Hs; try (pm_same).
     + apply PM_fail; auto.
     + apply PM_fail; eauto.
+  - split_step Hs; inv_pair Hs; pm_same.
+Qed.
+
+(* the query side: who queried, what waits in the channel, whose matching query was taken *)
+Inductive q_move (c : cfg) (st : state) (ev : event) (st' : state) (o : list output) : Prop :=
+| QM_same : queried st' = queried st -> qchan st' = qchan st -> qacc st' = qacc st ->
+    (forall L a q, ph st = Query L a q ->
+       (exists a', ph st' = Query L a' q) \/ (ph st' = Done L /\ q = 0%nat) \/ ph st' = Failed) ->
+    q_move c st ev st' o
+| QM_push p l : fix_queries c = true -> ev = Handle p (MQuery, (topic c, p), l) -> p <> self c -> In p (membership c) ->
+    ~ In p (queried st) -> queried st' = p :: queried st -> qchan st' = qchan st ++ [(p, l)] ->
+    qacc st' = qacc st -> ph st' = ph st -> o = [SendTo p MResp (my_view c st')] ->
+    q_move c st ev st' o
+| QM_take L a q p l rest : ev = TakeQuery -> ph st = Query L a q -> qchan st = (p, l) :: rest ->
+    qchan st' = rest -> queried st' = queried st ->
+    ((l = L /\ qacc st' = p :: qacc st /\
+      (ph st' = Query L a (pred q) \/ (ph st' = Done L /\ pred q = 0%nat))) \/
+     (l <> L /\ qacc st' = qacc st /\ ph st' = ph st)) ->
+    q_move c st ev st' o.
+
+Ltac qm_fin :=
+  let L := fresh "L" in let a := fresh "a" in let q := fresh "q" in let H := fresh "H" in
+  intros L a q H; simpl in *;
+  try match goal with E : ph ?s = _ |- _ => lazymatch E with H => fail | _ => rewrite E in H end end;
+  try discriminate; try (inversion H; subst; clear H);
+  first [left; eexists; reflexivity | right; left; split; reflexivity | right; right; reflexivity | eauto].
+Ltac qm_same := apply QM_same; [reflexivity|reflexivity|reflexivity|qm_fin].
+
+Lemma step_q c st ev st' o : step c st ev = (st', o) -> q_move c st ev st' o.
+Proof.
+  intros Hs. destruct ev; unfold step, decide, progress, set_ph, set_views, set_pass in Hs.
+  - destruct m as [[ty0 [t id]] v0].
+    destruct (stopped st); [inv_pair Hs; qm_same|].
+    destruct (accepts c from (ty0, (t, id), v0)) eqn:A; [|inv_pair Hs; qm_same].
+    apply accepts_spec in A. destruct A as (-> & -> & Hne & Hm).
+    destruct ty0.
+    + inv_pair Hs. qm_same.
+    + destruct (fix_queries c && negb (memb from (queried st))) eqn:E; inv_pair Hs; [|qm_same].
+      apply andb_true_iff in E. destruct E as [Efq E]. apply negb_true_iff in E.
+      eapply QM_push; simpl; eauto. intros Hin. apply memb_spec in Hin. congruence.
+    + destruct (memb from (responded st)); inv_pair Hs; qm_same.
+  - split_step Hs; inv_pair Hs; qm_same.
+  - split_step Hs; inv_pair Hs; qm_same.
+  - split_step Hs; inv_pair Hs; qm_same.
+  - split_step Hs; inv_pair Hs; qm_same.
+  - destruct (ph st) eqn:Ep; try (inv_pair Hs; qm_same).
+    destruct (chan st) as [|r rest]; [inv_pair Hs; qm_same|].
+    destruct (view_eqb r members); [|inv_pair Hs; qm_same].
+    destruct (pred acks_left), queries_left; inv_pair Hs; qm_same.
+  - destruct (ph st) eqn:Ep; try (inv_pair Hs; qm_same).
+    destruct (qchan st) as [|[p l] rest] eqn:Eq; [inv_pair Hs; qm_same|].
+    destruct (view_eqb l members) eqn:El.
+    + apply view_eqb_spec in El. subst l.
+      destruct acks_left, (pred queries_left) eqn:Eq'; inv_pair Hs;
+        (eapply QM_take; simpl; eauto; left; split; [reflexivity|]; split; [reflexivity|]; rewrite ?Eq'; auto).
+    + inv_pair Hs. eapply QM_take; simpl; eauto. right. split; [|auto].
+      intros ->. assert (view_eqb members members = true) by (apply view_eqb_spec; reflexivity). congruence.
+  - destruct (ph st) eqn:Ep; inv_pair Hs; qm_same.
+  - split_step Hs; inv_pair Hs; qm_same.
+Qed.
+
+(* a member that is no longer served neither changes nor emits anything *)
+Lemma step_stopped c st ev : stopped st = true -> (ph st = Failed \/ exists L, ph st = Done L) ->
+  step c st ev = (st, []).
+Proof.
+  intros Hst Hp. destruct ev; unfold step; rewrite ?Hst; try reflexivity;
+    destruct Hp as [Hp|[L Hp]]; rewrite Hp; try reflexivity; destruct st; simpl in *; subst; reflexivity.
+Qed.
+
+Lemma step_stop_flag c st ev st' o : step c st ev = (st', o) -> stopped st' = true ->
+  stopped st = true \/ (ev = Stop /\ (ph st = Failed \/ exists L, ph st = Done L) /\ ph st' = ph st).
+Proof.
+  intros Hs Hf. destruct ev; unfold step, decide, progress, set_ph, set_views, set_pass in Hs;
+    try destruct m as [[ty0 [t id]] v0];
+    split_step Hs; inv_pair Hs; simpl in *; try congruence; auto; right; split; auto; split; eauto.
+Qed.
+
+(* only HandleMessage sends point-to-point messages *)
+Lemma step_send_handle c st ev st' o to ty v : step c st ev = (st', o) -> In (SendTo to ty v) o ->
+  exists m, ev = Handle to m.
+Proof.
+  intros Hs Hin. destruct ev; unfold step, decide, progress, set_ph, set_views, set_pass in Hs;
+    try destruct m as [[ty0 [t id]] v0];
+    split_step Hs; inv_pair Hs; simpl in Hin; intuition (try discriminate).
+  - inversion H; subst. eauto.
+  - inversion H; subst. eauto.
 Qed.
 
 (* the list a member proceeds with: shape *)
@@ -358,10 +455,10 @@ Lemma step_fail c st ev st' o : step c st ev = (st', o) -> ph st' = Failed ->
   (ev = Pass2 /\ exists pend s, pass st = Some (pend, s) /\ ph st = Collect /\
      (expected c < length (intersected c s (keys (views st))))%nat).
 Proof.
-  intros Hs Hf. destruct (step_phase _ _ _ _ _ Hs) as [Hsame _ _|L n Hc Hev Hq|L Hc Hev Hd|L k Hq Hev Hq'|L Hq Hev Hd|Hq [Hev|Hev] _ _ _];
+  intros Hs Hf. destruct (step_phase _ _ _ _ _ Hs) as [Hsame _ _|L a q Hc Hev Hq|L Hc Hev Hd|L a q a' q' Hq Hev Hq'|L a q Hq Hev Hd|Hq [Hev|Hev] _ _ _];
     try congruence; try (left; congruence); auto.
-  right. right. split; [exact Hev|]. subst ev. unfold step, decide, set_ph in Hs.
-  destruct Hq as [Hq|(L & n & Hq)]; rewrite Hq in Hs; [|inv_pair Hs; congruence].
+  right. right. split; [exact Hev|]. subst ev. unfold step, decide, progress, set_ph, set_views, set_pass in Hs.
+  destruct Hq as [Hq|(L & a & q & Hq)]; rewrite Hq in Hs; [|inv_pair Hs; congruence].
   destruct (pass st) as [[pend s]|] eqn:Epa; [|inv_pair Hs; congruence].
   destruct (forallb _ pend); [|inv_pair Hs; congruence].
   destruct (Nat.leb _ _) eqn:E1; [|inv_pair Hs; simpl in Hf; discriminate].
@@ -382,3 +479,32 @@ Proof.
   destruct (fix_onepass c); [|lia].
   pose proof (NoDup_incl_length Hnds Hincl). lia.
 Qed.
+
+(* the responses channel: only an accepted response fills it, only TakeResponse empties it *)
+Lemma step_chan c st ev st' o : step c st ev = (st', o) ->
+  chan st' = chan st \/
+  (exists from tg v, ev = Handle from (MResp, tg, v) /\ accepts c from (MResp, tg, v) = true) \/
+  (ev = TakeResponse /\ exists r, chan st = r :: chan st').
+Proof.
+  intros Hs. destruct ev; unfold step, decide, progress, set_ph, set_views, set_pass in Hs;
+    try destruct m as [[ty0 tg0] v0].
+  - destruct (stopped st); [inv_pair Hs; auto|].
+    destruct (accepts c from (ty0, tg0, v0)) eqn:A; [|inv_pair Hs; auto].
+    destruct ty0; try (split_step Hs; inv_pair Hs; simpl; auto; fail).
+    right. left. eauto.
+  - split_step Hs; inv_pair Hs; simpl; auto.
+  - split_step Hs; inv_pair Hs; simpl; auto.
+  - split_step Hs; inv_pair Hs; simpl; auto.
+  - split_step Hs; inv_pair Hs; simpl; auto.
+  - destruct (ph st); try (inv_pair Hs; auto; fail).
+    destruct (chan st) as [|r rest] eqn:Ec; [inv_pair Hs; auto|].
+    right. right. split; [reflexivity|]. exists r. split_step Hs; inv_pair Hs; reflexivity.
+  - split_step Hs; inv_pair Hs; simpl; auto.
+  - split_step Hs; inv_pair Hs; simpl; auto.
+  - split_step Hs; inv_pair Hs; simpl; auto.
+Qed.
+
+Lemma step_take_empty c st : chan st = [] -> step c st TakeResponse = (st, []).
+Proof. intros H. unfold step. rewrite H. destruct (ph st); reflexivity. Qed.
+Lemma step_takeq_empty c st : qchan st = [] -> step c st TakeQuery = (st, []).
+Proof. intros H. unfold step. rewrite H. destruct (ph st); reflexivity. Qed.
